@@ -200,8 +200,9 @@ def _client_history(runs):
     return script
 
 
-oset("client.histories.native-exploration", ["C15", "C09", "C08", "C14", "C07", "C13"], [], kind="library-validation",
+oset("client.histories.native-exploration", ["C15", "C09", "C08", "C14", "C07", "C13", "C10", "C12"], [], kind="library-validation",
      bounded="300 random whole-client scripts (AirTouch4 / AirTouch5 object + heartbeat + socket against a simulated console built from the package's "
-             "own codecs, virtual time); end-to-end companion of the step contracts; proves nothing")(_client_history(300))
-oset("client.histories.native-exploration.thorough", ["C15", "C09", "C08", "C14", "C07", "C13"], [], kind="library-validation", tier="thorough",
+             "own codecs, virtual time; also: the model follows every changed report, subscribers hear of changes and not of repetitions); "
+             "end-to-end companion of the step contracts; proves nothing")(_client_history(300))
+oset("client.histories.native-exploration.thorough", ["C15", "C09", "C08", "C14", "C07", "C13", "C10", "C12"], [], kind="library-validation", tier="thorough",
      bounded="20000 random whole-client scripts; proves nothing")(_client_history(20000))
